@@ -9,6 +9,21 @@
 //   A <mode> <pen> <ns> (x0 y0 x1 y1)*ns <nc> (sx sy dx dy)*nc    libavoid: mode 0 polyline, 1 orthogonal; rectangles and
 //                                             free connector ends; prints every raw route (hex floats)
 //   P <seed> <k>                              cola::PseudoRandom(seed): k values of getNext()
+//   C <mode> <p0..p8> <optmask> <ns> (x0 y0 x1 y1 pins)*ns <nc> (end end)*nc <ncl> (k (x y)*k)*ncl
+//                                             libavoid under a full routing configuration: p0..p8 = every
+//                                             Avoid::RoutingParameter in enum order (segmentPenalty, anglePenalty,
+//                                             crossingPenalty, clusterCrossingPenalty, fixedSharedPathPenalty,
+//                                             portDirectionPenalty, shapeBufferDistance, idealNudgingDistance,
+//                                             reverseDirectionPenalty); bit i of optmask = Avoid::RoutingOption i (7 options);
+//                                             pins: 0 = none, k in 1..24 = the four side-centre pins (class 1, outward
+//                                             direction, not exclusive) created in the k-th permutation order;
+//                                             end = "P x y dirs" (free end, ConnDirFlags) | "S i" (pin class 1 of shape i);
+//                                             clusters = polygons.  Prints per connector the raw route() and displayRoute():
+//                                             "C R k x y .. D k x y .. R .."; "CX <what>" when the library throws
+//   R <third> <setb> <xb> <yb> <nf> f.. <n> (minX maxX minY maxY)*n     vpsc::removeoverlaps(rs, fixed, third); when setb=1 the
+//                                             caller saves Rectangle::xBorder/yBorder, sets them to xb/yb and puts the saved
+//                                             values back after the call.  NOTHING else is reset between commands: the statics
+//                                             are whatever earlier calls left.  Prints the borders after the call and the rectangles
 // numbers are decimal strings (dyadic => exact).
 #include <cstddef>
 #include <cfloat>
@@ -20,7 +35,15 @@
 #include <sstream>
 #include <iostream>
 #include <algorithm>
+#include <set>
+#include <map>
+#include <list>
+#include <cmath>
+#include <cassert>
+#include <exception>
+#define private public
 #include "libvpsc/rectangle.h"
+#undef private
 #include "libvpsc/variable.h"
 #include "libvpsc/constraint.h"
 #include "libvpsc/solve_VPSC.h"
@@ -130,6 +153,96 @@ int main()
                 printf("\n");
             }
             delete router;
+        } else if (tag == 'C') {
+            int mode, ns, nc, ncl; unsigned optmask; double par[9];
+            in >> mode;
+            for (int i = 0; i < 9; i++) par[i] = num(in);
+            in >> optmask >> ns;
+            std::string what;
+            int exc = 0;
+            Avoid::Router *router = 0;
+            std::vector<Avoid::ConnRef*> conns;
+            try {
+                router = new Avoid::Router(mode == 0 ? Avoid::PolyLineRouting : Avoid::OrthogonalRouting);
+                for (int i = 0; i < 9; i++) router->setRoutingParameter((Avoid::RoutingParameter) i, par[i]);
+                for (int i = 0; i < 7; i++) router->setRoutingOption((Avoid::RoutingOption) i, ((optmask >> i) & 1) != 0);
+                std::vector<Avoid::ShapeRef*> shapes;
+                static const int P4[24][4] = {{0,1,2,3},{0,1,3,2},{0,2,1,3},{0,2,3,1},{0,3,1,2},{0,3,2,1},{1,0,2,3},{1,0,3,2},{1,2,0,3},{1,2,3,0},{1,3,0,2},{1,3,2,0},
+                                              {2,0,1,3},{2,0,3,1},{2,1,0,3},{2,1,3,0},{2,3,0,1},{2,3,1,0},{3,0,1,2},{3,0,2,1},{3,1,0,2},{3,1,2,0},{3,2,0,1},{3,2,1,0}};
+                for (int i = 0; i < ns; i++) {
+                    double a = num(in), b = num(in), c = num(in), d = num(in); int pins; in >> pins;
+                    Avoid::Rectangle r(Avoid::Point(std::min(a, c), std::min(b, d)), Avoid::Point(std::max(a, c), std::max(b, d)));
+                    Avoid::ShapeRef *sh = new Avoid::ShapeRef(router, r, i + 1);
+                    shapes.push_back(sh);
+                    if (pins >= 1 && pins <= 24) {
+                        for (int q = 0; q < 4; q++) {
+                            int w = P4[pins - 1][q];
+                            Avoid::ShapeConnectionPin *pin = 0;
+                            if (w == 0) pin = new Avoid::ShapeConnectionPin(sh, 1, Avoid::ATTACH_POS_CENTRE, Avoid::ATTACH_POS_TOP, true, 0.0, Avoid::ConnDirUp);
+                            if (w == 1) pin = new Avoid::ShapeConnectionPin(sh, 1, Avoid::ATTACH_POS_CENTRE, Avoid::ATTACH_POS_BOTTOM, true, 0.0, Avoid::ConnDirDown);
+                            if (w == 2) pin = new Avoid::ShapeConnectionPin(sh, 1, Avoid::ATTACH_POS_LEFT, Avoid::ATTACH_POS_CENTRE, true, 0.0, Avoid::ConnDirLeft);
+                            if (w == 3) pin = new Avoid::ShapeConnectionPin(sh, 1, Avoid::ATTACH_POS_RIGHT, Avoid::ATTACH_POS_CENTRE, true, 0.0, Avoid::ConnDirRight);
+                            pin->setExclusive(false);
+                        }
+                    }
+                }
+                in >> nc;
+                for (int i = 0; i < nc; i++) {
+                    Avoid::ConnEnd ends[2];
+                    for (int e = 0; e < 2; e++) {
+                        std::string t; in >> t;
+                        if (t == "P") { double a = num(in), b = num(in); unsigned dirs; in >> dirs; ends[e] = Avoid::ConnEnd(Avoid::Point(a, b), (Avoid::ConnDirFlags) dirs); }
+                        else { int si; in >> si; ends[e] = Avoid::ConnEnd(shapes.at(si), 1); }
+                    }
+                    conns.push_back(new Avoid::ConnRef(router, ends[0], ends[1], 1000 + i));
+                }
+                ncl = 0; in >> ncl;
+                for (int i = 0; i < ncl; i++) {
+                    int k; in >> k;
+                    Avoid::Polygon poly(k);
+                    for (int j = 0; j < k; j++) { double a = num(in), b = num(in); poly.ps[j] = Avoid::Point(a, b); }
+                    new Avoid::ClusterRef(router, poly, 500 + i);
+                }
+                router->processTransaction();
+            }
+            catch (vpsc::CriticalFailure &f) { exc = 1; std::ostringstream o; o << "assert:" << f.file << ":" << f.line << ":" << f.expr; what = o.str(); }
+            catch (std::exception &e) { exc = 1; what = std::string("exception:") + e.what(); }
+            catch (...) { exc = 1; what = "exception:unknown"; }
+            if (exc) {
+                // only the file name of an assertion site and no blanks, so that the line stays one token list
+                size_t sl = what.rfind('/');
+                if (what.compare(0, 7, "assert:") == 0 && sl != std::string::npos) what = "assert:" + what.substr(sl + 1);
+                for (size_t i = 0; i < what.size(); i++) if (what[i] == ' ') what[i] = '_';
+                printf("CX %s\n", what.c_str());
+            } else {
+                printf("C");
+                for (size_t i = 0; i < conns.size(); i++) {
+                    const Avoid::PolyLine &r = conns[i]->route();
+                    printf(" R %zu", r.size());
+                    for (size_t j = 0; j < r.size(); j++) printf(" %a %a", r.ps[j].x, r.ps[j].y);
+                    const Avoid::PolyLine &d = conns[i]->displayRoute();
+                    printf(" D %zu", d.size());
+                    for (size_t j = 0; j < d.size(); j++) printf(" %a %a", d.ps[j].x, d.ps[j].y);
+                }
+                printf("\n");
+            }
+            if (!exc) delete router;     // after an escaped exception the router's state is undefined: leak it
+        } else if (tag == 'R') {
+            int third, setb, nf, n; in >> third >> setb; double xb = num(in), yb = num(in); in >> nf;
+            std::set<unsigned> fixed;
+            for (int i = 0; i < nf; i++) { unsigned f; in >> f; fixed.insert(f); }
+            in >> n;
+            vpsc::Rectangles rs;
+            for (int i = 0; i < n; i++) { double a = num(in), b = num(in), c = num(in), d = num(in); rs.push_back(new vpsc::Rectangle(a, b, c, d)); }
+            double ox = vpsc::Rectangle::xBorder, oy = vpsc::Rectangle::yBorder;
+            if (setb) { vpsc::Rectangle::setXBorder(xb); vpsc::Rectangle::setYBorder(yb); }
+            int exc = 0;
+            try { vpsc::removeoverlaps(rs, fixed, third != 0); } catch (...) { exc = 1; }
+            printf("R %d %a %a", exc, vpsc::Rectangle::xBorder, vpsc::Rectangle::yBorder);
+            if (setb) { vpsc::Rectangle::setXBorder(ox); vpsc::Rectangle::setYBorder(oy); }
+            for (int i = 0; i < n; i++) printf(" %a %a %a %a", rs[i]->minX, rs[i]->maxX, rs[i]->minY, rs[i]->maxY);
+            printf("\n");
+            for (int i = 0; i < n; i++) delete rs[i];
         } else if (tag == 'P') {
             // P <seed> <k>: cola::PseudoRandom(seed), k calls of getNext()
             double seed; int k; seed = num(in); in >> k;
